@@ -6,6 +6,8 @@
 
 #include <algorithm>
 #include <sstream>
+#include <sys/stat.h>
+#include <unistd.h>
 
 namespace sim {
 
@@ -480,9 +482,39 @@ void profile_writer(RunCtx& ctx)
         ctx.count("models-accepted");
     }
     do_noise(ctx, rng, step, rng.below(2));
+    // family realfile: the output goes to a real file that may already exist (shorter or longer than what will be
+    // written); the file system is the one thing here that is not simulated, so the pre-state is planned from the seed
+    const bool realfile = ctx.family == "realfile";
+    std::string real_dir, real_path;
+    if (realfile) {
+        real_dir = std::string{access("/dev/shm", W_OK) == 0 ? "/dev/shm" : "/tmp"} + "/utapsim." + std::to_string(getpid());
+        mkdir(real_dir.c_str(), 0700);
+        real_path = real_dir + "/out.xml";
+        int pre = rng.below(4);
+        if (pre > 0) {
+            std::string old = pre == 1 ? std::string{"<nta/>\n"} : (pre == 2 ? xml + xml + xml + std::string(20000, 'x') : std::string(200000, '\n'));
+            FILE* f = fopen(real_path.c_str(), "w");
+            if (f) {
+                fwrite(old.data(), 1, old.size(), f);
+                fclose(f);
+            }
+        }
+        ctx.count(std::string{"realfile-prestate:"} + (pre == 0 ? "absent" : (pre == 1 ? "shorter" : "longer")));
+    }
+    struct Cleanup
+    {
+        std::string dir, path;
+        ~Cleanup()
+        {
+            if (!dir.empty()) {
+                unlink(path.c_str());
+                rmdir(dir.c_str());
+            }
+        }
+    } cleanup{real_dir, real_path};
     CallSpec w;
     w.entry = E_WRITE;
-    w.bytes = "out.xml";
+    w.bytes = realfile ? real_path : "out.xml";
     w.sched = ctx.draw_sched(rng, iofault, true);
     w.ceiling = default_ceiling(xml.size() * 4 + 20000);
     int st = step++;
@@ -507,6 +539,19 @@ void profile_writer(RunCtx& ctx)
         if (ctx.violation("C20", "writer-threw", "writer-threw|" + r.exc_class + "|" + ctx.hint, "write_XML_file threw " + r.exc_class + ": " + r.exc_what))
             return;
         return;
+    }
+    Sink real_sink;
+    if (realfile) {
+        FILE* f = fopen(real_path.c_str(), "r");
+        if (f) {
+            char buf[65536];
+            size_t n;
+            while ((n = fread(buf, 1, sizeof buf, f)) > 0)
+                real_sink.data.append(buf, n);
+            fclose(f);
+            sink = &real_sink;
+        } else
+            sink = nullptr;
     }
     if (!sink) {
         ctx.violation("C20", "no-output", "no-output", "write_XML_file returned " + std::to_string(r.ret) + " without opening the sink");
